@@ -62,7 +62,7 @@ CHECKS = {
          "Trusted: styled printer and role mapping (implicit registers of pseudo-instructions are identified with the explicit operand of their expansion). Rewrites outside the list (macros, .eqv) are unsupported by the tool.",
          "DESIGN.md 3 C13"),
  "C14": ("bounded-exhaustive enumeration of register-class permutation orbits and label renamings per template; relational (equivariance) oracle",
-         "Templates = program pool (every 887th / 97th member of the quick S family, clean and injected): the full orbit of the temporaries a template mentions (all injective assignments of <= 3 slots to t0-t6), the full orbit of its saved registers (<= 3 slots to s0-s11, up to 1320) and label renamings from an 8-identifier pool; the diagnostics of every renamed program, compared by (code, statement index, operand role, register mapped back), must equal the template's.",
+         "Templates = program pool (every 499th / 97th member of the quick S family, clean and injected): the full orbit of the temporaries a template mentions (all injective assignments of <= 3 slots to t0-t6), the full orbit of its saved registers (<= 3 slots to s0-s11, up to 1320) and label renamings from an 8-identifier pool; the diagnostics of every renamed program, compared by (code, statement index, operand role, register mapped back), must equal the template's.",
          "Trusted: renaming on the harness AST. Canonical hash-order schedule (label hash order is C10's subject).",
          "DESIGN.md 3 C14"),
  "C15": ("bounded-exhaustive enumeration of (program x cut into an include tree x reader fault sequence); differential oracle against the pasted file through a flattener; CLI conformance on materialised trees",
